@@ -24,6 +24,7 @@ EXPLANATION = (
     "range on that side (spos - 1 on the left, epos on the right), never from a kept neighbour."
     ' Added after seed round 3: (9) ACCUM - running positions of the canvas composition loops (shards_trim_sides, CanvasJoin, CanvasCombine, shards_trim_rows, the rle walkers) advance in every continuing iteration, `continue` paths included; (10) the column-frame rule of calc_trim_text (C11.9).'
     " Round 4: the coords shift of pad_trim_left_right / trim is made under exactly the conditions under which the shards are replaced; (11) LOOPFRESH - per-shard state (content_delta's row memo, new_cviews, the running column) is defined anew for every shard."
+    " Round-4 triage: (12) content_delta pairs cviews by screen column - the unchanged marker is produced from column lists computed with the shard tails, and both tails are carried forward for every shard consumed or stepped over."
 )
 NOT_DECIDED = "Cell-for-cell equality with the grid model, the width arithmetic of cutting wide characters, content_delta round trip - statements about values of the shard algebra."
 ASSUMPTIONS = []
@@ -217,6 +218,55 @@ def rule_delta(ctx: Ctx) -> RuleResult:
     return rr
 
 
+def rule_delta_columns(ctx: Ctx) -> RuleResult:
+    """A shard lists only the cviews that *start* in it; taller cviews of earlier shards (the shard tail) take up
+    columns in between.  Marking a cview of the new canvas "unchanged" (canv = None) is right only if the old canvas
+    shows the same view of the same canvas in the same *screen column* - so the pairing has to know the tails:
+    (a) every call of the function that produces the unchanged marker passes, for each of the two canvases, a column
+        list computed by a tail-aware function (one that walks a shard tail, i.e. loops over a parameter unpacking
+        (col_gap, done_rows, content_iter, cview));
+    (b) the tails handed to it are carried forward with shard_body_tail() for every shard consumed - in the loop over
+        the new canvas's shards and wherever a shard of the old canvas is stepped over."""
+    p = ctx.p
+    rr = RuleResult("PAIR", "C02.12", "content_delta pairs cviews of the two canvases by screen column: the unchanged marker is produced from column lists computed with the shard tails, which are advanced for every shard consumed", floor=3)
+    mod = p.modules[CV]
+    funcs = [f for f in mod.functions if f.cls is None]
+    markers = [f for f in funcs if any(isinstance(n, ast.BinOp) and isinstance(n.op, ast.Add) and any(isinstance(x, ast.Tuple) and len(x.elts) == 1 and isinstance(x.elts[0], ast.Constant) and x.elts[0].value is None for x in (n.left, n.right)) for n in f.own_nodes()) and any(isinstance(n, ast.Yield) for n in f.own_nodes())]
+    tail_aware = {f.name for f in funcs if any(isinstance(n, ast.For) and isinstance(n.iter, ast.Name) and n.iter.id in f.params and isinstance(n.target, ast.Tuple) and len(n.target.elts) == 4 for n in f.own_nodes())}
+    if not markers or not tail_aware:
+        raise AnalysisError("canvas.py: the unchanged-marker generator / a tail-walking helper was not found")
+    for m in markers:
+        for c_fi in funcs:
+            for call in [c for c in c_fi.own_nodes() if isinstance(c, ast.Call) and isinstance(c.func, ast.Name) and c.func.id == m.name]:
+                col_args = [a for a in [*call.args, *[k.value for k in call.keywords]] if isinstance(a, ast.Call) and isinstance(a.func, ast.Name) and a.func.id in tail_aware]
+                rr.inst(f"{short(c_fi)}: {norm(call, 40)}", True, {"caller": short(c_fi), "call": norm(call, 90), "tail_aware_column_arguments": [norm(a, 50) for a in col_args]})
+                if len(col_args) < 2:
+                    rr.add(finding("PAIR", c_fi, call, f"`{norm(call, 60)}` pairs the cviews two shards list by their offset within the lists: the cviews of earlier shards that are still running (the shard tails) shift the listed ones to other screen columns, so a leaf canvas that moved sideways is marked unchanged and the delta applied to the old rows does not reproduce the new content", construct=f"{m.name} called without tail-aware columns"))
+                    continue
+                # (b) the tails are carried forward
+                tails = []
+                for a in col_args:
+                    tails += [x.id for x in a.args[1:] if isinstance(x, ast.Name)]
+                for tv in tails:
+                    stores = [n for n in c_fi.own_nodes() if isinstance(n, ast.Assign) and any(isinstance(t, ast.Name) and t.id == tv for t in n.targets)]
+                    adv = [n for n in stores if isinstance(n.value, ast.Call) and callee_name(n.value) == "shard_body_tail"]
+                    loops = [n for n in c_fi.own_nodes() if isinstance(n, (ast.For, ast.While))]
+                    in_loops = [lp for lp in loops if any(a_ in list(ast.walk(lp)) for a_ in adv)]
+                    rr.inst(f"{short(c_fi)}: tail {tv}", True, {"tail": tv, "advanced_by": [norm(n, 70) for n in adv], "in_loops": [norm(lp, 40) for lp in in_loops]})
+                    if not adv or not in_loops:
+                        rr.add(finding("PAIR", c_fi, call, f"the shard tail `{tv}` handed to the column computation is never carried forward with shard_body_tail() inside the shard loop: from the second shard on the columns are computed as if nothing were running above", construct=f"tail {tv} not advanced"))
+                # every place that steps over a shard of the old canvas inside an inner loop advances its tail too
+                for w in [n for n in c_fi.own_nodes() if isinstance(n, ast.While)]:
+                    nexts = [x for x in ast.walk(w) if isinstance(x, ast.Call) and isinstance(x.func, ast.Name) and x.func.id == "next"]
+                    if not nexts:
+                        continue
+                    upd = [x for x in ast.walk(w) if isinstance(x, ast.Assign) and isinstance(x.value, ast.Call) and callee_name(x.value) == "shard_body_tail"]
+                    rr.inst(f"{short(c_fi)}: skip loop", True, {"loop": norm(w, 60), "tail_updates": len(upd)})
+                    if not upd:
+                        rr.add(finding("PAIR", c_fi, w, f"`{norm(w, 60)}` steps over shards of the old canvas without carrying their unfinished cviews into the tail: after a skipped shard the old canvas's columns are computed without the cviews still running there", construct="old canvas's shards skipped without tail update"))
+    return rr
+
+
 def rule_get_or(ctx: Ctx) -> RuleResult:
     """Attribute values may be falsy (None is the default attribute, '' and 0 are hashable names): a mapping lookup
     with a fallback must be `.get(k, default)`, never `.get(k) or default`."""
@@ -249,6 +299,7 @@ def run(ctx: Ctx):
         dim.run_dim(p, "C02.4", [CV], floor=20, exceptions={}, description="no cols/rows confusion inside canvas.py"),
         rule_cut_attr(ctx),
         rule_delta(ctx),
+        rule_delta_columns(ctx),
         rule_get_or(ctx),
         accum.run_accum(p, "C02.9", "C02", floor=5),
         _trim_frame(ctx),
@@ -272,8 +323,11 @@ MUTANTS = [
     Mut("overlay-unguarded", _C, "CompositeCanvas.overlay", "        if self.widget_info:\n            raise self._finalized_error\n", "", "GUARD|"),
     Mut("pad-right-shared-cviews", _C, "CompositeCanvas.pad_trim_left_right", "new_top_cviews = top_cviews.copy()", "new_top_cviews = top_cviews", "FRESHLIST|canvas.CompositeCanvas.pad_trim_left_right"),
     Mut("cut-attr-from-kept-neighbour", "urwid/util.py", "trim_text_attr_cs", "al = rle_get_at(attr, spos - 1)", "al = rle_get_at(attr, spos)", "PAIR|util.trim_text_attr_cs"),
-    Mut("delta-bare-next", _C, "shard_cviews_delta", "other_cv = next(other_cviews_iter, None)\n        while", "other_cv = next(other_cviews_iter)\n        while", "GENSTOP|canvas.shard_cviews_delta"),
-    Mut("delta-cursor-resync", _C, "shard_cviews_delta", "        other_cols += other_cv[2]\n        other_cv = None", "        other_cols = cols\n        other_cv = None", "GENSTOP|canvas.shard_cviews_delta"),
+    Mut("delta-bare-next", _C, "shards_delta", "            other_num_rows, other_cviews = next(other_shards_iter, (None, None))\n        while", "            other_num_rows, other_cviews = next(other_shards_iter)\n        while", "GENSTOP|canvas.shards_delta"),
+    Mut("delta-cursor-resync", _C, "shards_delta", "            other_done += other_num_rows\n            other_tail = shard_body_tail(other_num_rows, shard_body(other_cviews, other_tail, False))\n            other_num_rows = None", "            other_done = done\n            other_tail = shard_body_tail(other_num_rows, shard_body(other_cviews, other_tail, False))\n            other_num_rows = None", "GENSTOP|canvas.shards_delta"),
+    Mut("delta-pairs-by-list-offset", _C, "shards_delta", "                    shard_cview_columns(cviews, shard_tail),\n                    shard_cview_columns(other_cviews, other_tail),\n", "", "PAIR|canvas.shards_delta"),
+    Mut("delta-old-tail-not-advanced-on-skip", _C, "shards_delta", "            other_done += other_num_rows\n            other_tail = shard_body_tail(other_num_rows, shard_body(other_cviews, other_tail, False))\n            other_num_rows, other_cviews = next(other_shards_iter, (None, None))", "            other_done += other_num_rows\n            other_num_rows, other_cviews = next(other_shards_iter, (None, None))", "PAIR|canvas.shards_delta"),
+    Mut("delta-new-tail-never-advanced", _C, "shards_delta", "        shard_tail = shard_body_tail(num_rows, shard_body(cviews, shard_tail, False))\n        done += num_rows", "        done += num_rows", "PAIR|canvas.shards_delta"),
     Mut("attr-remap-get-or", _C, "CompositeCanvas.fill_attr_apply", "mapping.get(v, v)", "mapping.get(v) or v", "TRUTHY|canvas.CompositeCanvas.fill_attr_apply"),
     Mut("twin-trim-coords-regrouped", _C, "CompositeCanvas.trim", "self.coords = self.translate_coords(0, -top)", "self.coords = self.translate_coords(0, 0 - top)", twin=True),
 ]
